@@ -48,16 +48,24 @@ def impl(case):
     if op == 'reader_flat':
         sr = case['cs'] / 600.
         with C.scratch_dir() as d:
-            paths = []
+            paths, blocks, row0 = [], [], 0
             for i, s in enumerate(case['sizes']):
                 p = d / ('f%d.bin' % i)
-                np.zeros((s, case['nch']), dtype=np.int16).tofile(p)
+                blocks.append((np.arange(row0, row0 + s, dtype=np.int16)[:, None] * 3 +
+                               np.arange(case['nch'], dtype=np.int16)[None, :]).astype(np.int16))
+                row0 += s
+                blocks[-1].tofile(p)
                 paths.append(p)
             r = T.get_ephys_reader(paths, sample_rate=sr, dtype=np.int16, n_channels=case['nch'])
+            it = [[int(a), int(b)] for a, b in r.iter_chunks()]
+            # read_by_chunks_eq_concat: reader[i0:i1] over the iterator, stacked = the recording
+            whole = np.concatenate(blocks, axis=0)
+            got = [np.asarray(r[a:b]) for a, b in it if b > a]
+            got = np.concatenate(got, axis=0) if got else whole[:0]
             out = dict(bounds=[int(x) for x in r.chunk_bounds],
                        part_bounds=[int(x) for x in r.part_bounds],
-                       iter=[[int(a), int(b)] for a, b in r.iter_chunks()],
-                       n_samples=int(r.n_samples))
+                       iter=it, n_samples=int(r.n_samples),
+                       concat_ok=bool(got.shape == whole.shape and np.array_equal(got, whole)))
             del r
         return out
     if op == 'reader_array':
@@ -162,6 +170,8 @@ def judge(case, impl_res, ans):
             cur = b
         if cur != sum(case['sizes']):
             return 'SPEC: iter_chunks intervals do not reach the sample count'
+        if ok.get('concat_ok') is False:
+            return 'SPEC: reader[i0:i1] over iter_chunks, stacked, differs from the recording'
         if ok['bounds'] != m['model'] or ok['iter'] != m['iter'] or \
                 (op == 'reader_flat' and ok['part_bounds'] != m['part_bounds']):
             return 'CORR: reader bounds/iterator differ from the model'
